@@ -21,7 +21,7 @@ var permCodes = []int16{10, 17, 29, 18, 45, -1} // MessageSizeTooLarge, InvalidT
 func GenCase(t *rapid.T, bias Bias, stratum int) Case {
 	c := Case{
 		Brokers:        rapid.IntRange(1, 3).Draw(t, "brokers"),
-		ProduceMax:     rapid.SampledFrom([]int16{2, 3, 5, 7, 8}).Draw(t, "produceMax"),
+		ProduceMax:     rapid.SampledFrom([]int16{0, 1, 2, 3, 5, 7, 8}).Draw(t, "produceMax"),
 		BatchSize:      rapid.IntRange(1, 8).Draw(t, "batchSize"),
 		BatchTimeoutMs: rapid.IntRange(1, 25).Draw(t, "batchTimeoutMs"),
 		MaxAttempts:    rapid.IntRange(1, 4).Draw(t, "maxAttempts"),
